@@ -3,5 +3,5 @@ EXTENDS InotifySched
 CONSTANTS t1, t2
 MCThreads == {t1, t2}
 \* keep the ghost history out of the fingerprint where it only records
-View == <<kq, kmark, nfs, ovfd, fnamed, falive, fdOpen, mu, done, doneResp, evq, evClosed, errClosed, tab, rd, th, closeRet, {errs[i] : i \in 1..Len(errs)}>>
+View == <<kq, kmark, nfs, ovfd, gen, fnamed, falive, fdOpen, mu, done, doneResp, evq, evClosed, errClosed, tab, rd, th, closeRet, {errs[i] : i \in 1..Len(errs)}>>
 =============================================================================
